@@ -191,6 +191,7 @@ def explore(rep, seed_names, oracle, tier, depth, root_parts=4, safe_only=True, 
                     units.append(u)
             stats["states"] += len(level)
             nxt = []
+            level_best = {}
             ntr = 0
             for res in pool.imap_unordered(run_unit, units, chunksize=1):
                 ntr += res["transitions"]
@@ -209,12 +210,19 @@ def explore(rep, seed_names, oracle, tier, depth, root_parts=4, safe_only=True, 
                     rep.violation(sig, art)
                 for h, ev in res["new"]:
                     key = (res["unit"]["seed"], h)
-                    if key not in seen:
-                        seen.add(key)
-                        nxt.append((res["unit"]["seed"], res["unit"]["hist"] + [ev], h))
+                    if key in seen:
+                        continue
+                    # representative path of a new state = the smallest one (independent of worker timing)
+                    cand = (res["unit"]["seed"], res["unit"]["hist"] + [ev], h)
+                    ck = json.dumps(cand[1], sort_keys=True)
+                    if key not in level_best or ck < level_best[key][0]:
+                        level_best[key] = (ck, cand)
                 if time_budget_s and time.time() - t0 > time_budget_s:
                     stats["cap_hit"] = f"time budget {time_budget_s}s at depth {d + 1}"
                     break
+            for key, (ck, cand) in level_best.items():
+                seen.add(key)
+                nxt.append(cand)
             stats["transitions"] += ntr
             stats["levels"].append({"depth": d + 1, "states_expanded": len(level), "transitions": ntr, "new_states": len(nxt)})
             if stats["cap_hit"]:
